@@ -182,6 +182,13 @@ theorem findLineEnd_block_newline (c1 c2 : Ch) (cs : List Ch) (h1 : c1.r = 42) (
     (findLineEnd .head (c1 :: c2 :: cs)).1 = true := by
   simp [findLineEnd, h1, h2]
 
+/-- Non-vacuity of `semi_rule_comment`: `// x` and `/*` + newline after a token of the set. -/
+example : atComment ⟨47, [47], none⟩ [⟨47, [47], none⟩, ⟨120, [120], none⟩] = true ∧
+    (findLineEnd .head [⟨47, [47], none⟩, ⟨120, [120], none⟩]).1 = true ∧
+    (findLineEnd .head [⟨42, [42], none⟩, ⟨10, [10], none⟩]).1 = true ∧
+    (findLineEnd .head [⟨42, [42], none⟩, ⟨42, [42], none⟩, ⟨47, [47], none⟩, ⟨120, [120], none⟩]).1 = false := by
+  decide
+
 /-- Non-vacuity: the flag after `)` and after `+`, an Illegal token keeps it. -/
 example : (scanR (fun _ => 0) false 41 ⟨41, [41], none⟩ []).ins = true ∧ (scanR (fun _ => 0) true 43 ⟨43, [43], none⟩ []).ins = false ∧
     (scanR (fun _ => 0) true 64 ⟨64, [64], none⟩ []).tok = some (.Illegal, [64]) ∧
